@@ -271,6 +271,9 @@ def run(pid, tier, seed):
         cases = corpus + cases
         impl = cobs + impl
         meta = ["corpus 1"] * len(corpus) + meta
+    if len(cases) < int(cfg.get("min_cases", 100)):
+        return cannot_run(pid, "only %d cases were generated (at least %d expected): the differential would be vacuous"
+                          % (len(cases), int(cfg.get("min_cases", 100))), "")
     with open(os.path.join(work, "all_cases.txt"), "w") as f:
         f.write("\n".join(cases) + "\n")
     model = run_models(m_exe, os.path.join(work, "all_cases.txt"), work, jobs=int(cfg.get("parallel_model", 1)))
